@@ -4,7 +4,9 @@ from tpmstream.common.event import MarshalEvent
 
 from . import spaces as sp
 from .common import decode_full, get_type
-from .props import _events_equal, assume_leaves, kind_of
+from tpmstream.common.event import WarningEvent
+
+from .props import _events_equal, _same_event, assume_leaves, kind_of
 
 META = {
     "rule": "Stream shapes = concatenations of generated command/response pairs (the response of each pair generated "
@@ -18,16 +20,32 @@ META = {
 CORE = ("Startup", "GetRandom", "StartAuthSession")
 
 
+def _stream_events_equal(evs, ref):
+    """like props._events_equal, but warnings are compared too (same error class at the same position)"""
+    if len(evs) != len(ref):
+        return False, True
+    st, va = [], []
+    for a, e in zip(evs, ref):
+        if isinstance(a, WarningEvent) or isinstance(e, WarningEvent):
+            st.append(isinstance(a, WarningEvent) and isinstance(e, WarningEvent) and type(a.error) is type(e.error))
+            continue
+        x, y = _same_event(a, e)
+        st.append(x)
+        va.append(y)
+    return all(st), all(va)
+
+
 def stream_vs_singles(cfg, b):
     from tpmstream.common.object import events_to_objs
     from tpmstream.spec.commands import Command, CommandResponseStream, Response
 
     assume_leaves(cfg, b)
     lens = cfg["lens"]
+    strict = not cfg.get("warn")
     if cfg.get("cc_in"):
         v = int.from_bytes(b[6:10], "big")
         assume(any([v == c for c in cfg["cc_in"]]))
-    s = decode_full(CommandResponseStream, b, True)
+    s = decode_full(CommandResponseStream, b, strict)
     if s.crash is not None:
         note("stream-crash")
         assume(False)  # internal errors are C06's business
@@ -39,9 +57,9 @@ def stream_vs_singles(cfg, b):
         part = b[off:off + n]
         off += n
         if i % 2 == 0:
-            r = decode_full(Command, part, True)
+            r = decode_full(Command, part, strict)
         else:
-            r = decode_full(Response, part, True, cc, enc)
+            r = decode_full(Response, part, strict, cc, enc)
         if r.crash is not None:
             from engine.native import exc_tag
 
@@ -52,6 +70,8 @@ def stream_vs_singles(cfg, b):
             break
         exp_objs.append(r.obj)
         if i % 2 == 0:
+            if r.obj is None or r.obj.commandCode is None:
+                assume(False)  # warn mode abandoned the command: no pairing defined
             cc = r.obj.commandCode
             area = r.obj.authorizationArea
             enc = (True if area is not None and any(a.sessionAttributes.encrypt for a in area) else None)
@@ -64,9 +84,9 @@ def stream_vs_singles(cfg, b):
     checks.append(("stream-event-count", len(s.events) == len(exp_events)))
     if len(s.events) != len(exp_events):
         return checks
-    st, va = _events_equal(s.events, exp_events)
+    st, va = _stream_events_equal(s.events, exp_events)
     checks.append(("stream-events-equal-concatenation", st and va))
-    if exp_err is None:
+    if exp_err is None and not any(isinstance(e, WarningEvent) for e in exp_events):
         objs = list(events_to_objs(s.events))
         checks.append(("one-object-per-message", len(objs) == len(exp_objs)))
         if len(objs) == len(exp_objs):
@@ -135,8 +155,25 @@ def partitions(tier, seed):
         return sp.M("harness.c09:stream_vs_singles", "C09", sp.stream_key(), label, data, free, budget=40,
                     cfg={"lens": [len(m) for m, _t in msgs]})
 
+    def warn_variant(label, cc, c, r, enc):
+        """warn mode, one constrained leaf of the response (and one of the command) symbolic over its width"""
+        out = []
+        rtr = sp.trace_of(sp.rsp_key(), r, cc=cc, enc=enc)
+        ctr = sp.trace_of(sp.cmd_key(), c)
+        for which, tr, off0 in (("rsp", rtr, len(c)), ("cmd", ctr, 0)):
+            xs = [x for x in tr if x[4] == "leaf" and not sp.is_full_range(x[1])][:1]
+            if not xs:
+                continue
+            free = [off0 + i for i in range(xs[0][2], xs[0][2] + xs[0][3])]
+            data = c + r
+            out.append(sp.M("harness.c09:stream_vs_singles", "C09", sp.stream_key(), "%s/warn-%s-value" % (label, which), data, free,
+                            budget=40, cfg={"lens": [len(c), len(r)], "warn": True}))
+        return out
+
     for label, cc, c, r, enc in pairs:
         parts.append(mk(label, [(c, (sp.cmd_key(), None, None)), (r, (sp.rsp_key(), cc, enc))]))
+        if label.endswith("nosess+nosess") or label.endswith("sess1+sess1"):
+            parts.extend(warn_variant(label, cc, c, r, enc))
         if "sess1" in label:
             parts.append(mk(label + "/attrs", [(c, (sp.cmd_key(), None, None)), (r, (sp.rsp_key(), cc, enc))], attrs=True))
         parts.append(mk(label + "/cmd-only", [(c, (sp.cmd_key(), None, None))]))
